@@ -43,6 +43,7 @@ RBool == /\ IsEvent("rbool")
                         \/ Ev.checkall /\ Len(Ev.enc) = 1 + VecLen(Ev.count) /\ Ev.enc[1] = 0
             IN  /\ conf
                 /\ Len(Ev.dec) = Ev.count
+                /\ Ev.used = Len(Ev.enc)                                    \* consumes exactly the vector, not what follows it
                 /\ Ev.dec = ReadBoolAlgo(Ev.enc, Ev.count, Ev.checkall)    \* for conforming input the algorithm IS the definition
                 /\ (cur.enc = Ev.enc /\ Len(cur.v) = Ev.count => Ev.dec = cur.v)
          /\ cur' = None
